@@ -328,3 +328,13 @@ Proof.
     + assert (L2 : logged_or_probing (fst (run_ops cfg s1 r)) = true) by (rewrite E2; exact L).
       destruct (IH s1 L1 L2) as (d & s0 & lm & Hin & R). exists d, s0, lm. split; [right; exact Hin|exact R].
 Qed.
+
+(* with limits whose lower bound is positive (NewAcceptorSession refuses a bound of 0, so this is every
+   configuration but those with a negative lower bound) an interval within the limits is positive:
+   the unstartable case cannot arise and [acceptable] is exactly method, limits and approval *)
+Lemma positive_limits_startable cfg s enc hb lo hi :
+  st_limits (s_settings s) = Some (lo, hi) -> (0 < lo)%Z ->
+  check_logon_params cfg s enc hb = None -> (0 < hb)%Z.
+Proof.
+  intros L Hlo Ck. destruct (check_params_none _ _ _ _ Ck) as (_ & A). rewrite L in A. lia.
+Qed.
